@@ -194,7 +194,7 @@ def root_cause(h, why):
                 scopes[-1][('ord', e[1])] = 'parameter'
         elif e[0] == '}':
             scopes.pop()
-        elif e[0] == 'decl' and e[1] != 'label':
+        elif e[0] == 'decl' and e[1] not in ('label', 'proto'):
             ns = 'tag' if e[1] in ('stag', 'utag', 'sfwd', 'ufwd') else 'ord'
             old = scopes[-1].get((ns, e[2]))
             if old and ns == 'tag' and (e[1] in ('sfwd', 'ufwd') or old in ('sfwd', 'ufwd')) and old[0] == e[1][0]:
